@@ -194,6 +194,60 @@ def sweep(rep, pid, n_random):
     rep.samples.append({"bounded_case": cases[len(cases) // 2]})
 
 
+def gen_verdict_cases(tier, rng, n):
+    """Verdict-only family (C02): uniformly sampled 4-node ADMGs x every kind of query, and sparse 5-node ADMGs.  A case costs a
+    call of identify_outcomes and of the c-component criterion (no SCM evaluation), so tens of thousands fit in the quick tier."""
+    vs4 = oracles.names(4)
+    pairs = [(a, b) for a in vs4 for b in vs4 if a < b]
+    qs4 = list(queries(vs4))
+    for _ in range(n):
+        order = rng.sample(vs4, 4)
+        pos = {v: i for i, v in enumerate(order)}
+        d = [(a, b) if pos[a] < pos[b] else (b, a) for a, b in pairs if rng.random() < rng.choice([0.35, 0.6])]
+        u = [(a, b) for a, b in pairs if rng.random() < rng.choice([0.15, 0.3, 0.5])]
+        xs, ys = rng.choice(qs4)
+        yield {"verdict_only": True, "nodes": vs4, "directed": d, "undirected": u, "X": xs, "Y": ys, "seed": 1 + 4 * rng.randrange(1 << 28)}
+    for _ in range(n // 3):
+        vs, d, u = oracles.random_admg(rng, 5, p_d=rng.choice([0.3, 0.45]), p_u=rng.choice([0.1, 0.2, 0.3]))
+        k = rng.randint(1, 3)
+        xs = rng.sample(vs, k)
+        rest = [v for v in vs if v not in xs]
+        ys = rng.sample(rest, rng.randint(1, min(2, len(rest))))
+        yield {"verdict_only": True, "nodes": vs, "directed": d, "undirected": u, "X": xs, "Y": ys, "seed": 1 + 4 * rng.randrange(1 << 28)}
+
+
+def _eval_verdict(c):
+    try:
+        return c, run_case(c, which=("C02",))
+    except Exception as e:
+        return c, {"error": f"{type(e).__name__}: {e}"}
+
+
+def verdict_sweep(rep, n):
+    t0 = time.time()
+    rng = random.Random(repr((rep.seed, "idfam-verdict")))
+    cases = list(gen_verdict_cases(rep.tier, rng, n))
+    concrete.y0mod("y0.dsl")
+    fails, errs = [], []
+    with mp.get_context("fork").Pool(16) as pool:
+        for c, res in pool.imap_unordered(_eval_verdict, cases, chunksize=64):
+            if "error" in res:
+                errs.append(res["error"])
+            elif "C02" in res:
+                fails.append((c, res["C02"]))
+    if errs:
+        rep.errors.append(f"C02 verdict family: {len(errs)} evaluation errors, e.g. {errs[0]}")
+    rep.extra_parts.append({"name": "identify_outcomes-verdict-family[C02]", "kind": "bounded", "decides": True, "evaluations": len(cases),
+                            "scope": f"{n} uniformly sampled 4-node ADMGs x queries and {n // 3} sparse 5-node ADMGs: estimand / refusal against the c-component "
+                                     "criterion, no other exception, caller state unchanged (verdict only, no numeric evaluation)",
+                            "failures": len(fails), "wall_s": round(time.time() - t0, 1)})
+    if fails and not any(v[0].endswith("bounded.C02") for v in rep.violations):
+        c, why = min(fails, key=lambda f: (len(f[0]["nodes"]), len(f[0]["directed"]) + len(f[0]["undirected"])))
+        path = pipeline.write_replay("C02", "bounded.verdict", {"property": "C02", "obligation": "y0.algorithm.identify.api.identify_outcomes/bounded.C02",
+                                                               "case": c, "why": why})
+        rep.violations.append(("y0.algorithm.identify.api.identify_outcomes/bounded.C02", path, ""))
+
+
 def replay(pid, payload, path):
     res = run_case(payload["case"])
     print(json.dumps({"case": payload["case"], "now": res}, indent=1))
